@@ -447,6 +447,12 @@ namespace bloch::compiler {
 
         std::vector<std::unique_ptr<AnnotationNode>> trailingAnnotations = parseAnnotations();
         for (auto& ann : trailingAnnotations) annotations.push_back(std::move(ann));
+        for (const auto& ann : annotations) {
+            if (ann && ann->name == "shots") {
+                throw BlochError(ErrorCategory::Parse, ann->line, ann->column,
+                                 "'@shots(N)' can only decorate the main() function.");
+            }
+        }
 
         if (match(TokenType::Constructor)) {
             if (!annotations.empty()) {
@@ -754,9 +760,14 @@ namespace bloch::compiler {
         while (check(TokenType::At)) {
             // TODO: refactor this, currently if invalid variable annotation is used, it will be
             // caught rather than thrown this is a rather hacky solution.
+            // parseVariableAnnotation() consumes the '@' before it finds out that the name is not
+            // a variable annotation; rewind to the '@' before trying the function annotations,
+            // otherwise '@quantum' in front of a class method failed with "Expected '@' ...".
+            const size_t atToken = m_current;
             try {
                 annotations.push_back(parseVariableAnnotation());
-            } catch (BlochError error) {
+            } catch (const BlochError&) {
+                m_current = atToken;
                 annotations.push_back(parseFunctionAnnotation());
             }
         }
